@@ -274,6 +274,58 @@ def _jittered(w, k=1):
             for i, x in enumerate(w)]
 
 
+# Derived quantities: (input method, formula on the library's own input).
+# When the input's relation already failed for the same split and the derived
+# value is what its formula gives on the reported input (on both networks),
+# the failure has the input's root cause and is not reported a second time.
+DERIVED = {
+    "nsi_global_clustering": "nsi_local_clustering",
+    "nsi_cross_global_clustering": "nsi_cross_local_clustering",
+    "nsi_cross_mean_degree": "nsi_cross_degree",
+    "nsi_cross_edge_density": "nsi_cross_mean_degree",
+}
+
+
+def _derived_consistent(net, name, L1, L2, value):
+    try:
+        w = np.asarray(net.node_weights, dtype=float)
+        if name == "nsi_global_clustering":
+            c = np.asarray(net.nsi_local_clustering(), dtype=float)
+            exp = float((w * c).sum() / w.sum())
+        elif name == "nsi_cross_global_clustering":
+            c = np.asarray(net.nsi_cross_local_clustering(list(L1), list(L2)),
+                           dtype=float)
+            exp = float((w[list(L1)] * c).sum() / w[list(L1)].sum())
+        elif name == "nsi_cross_mean_degree":
+            k = np.asarray(net.nsi_cross_degree(list(L1), list(L2)),
+                           dtype=float)
+            exp = float((w[list(L1)] * k).sum() / w[list(L1)].sum())
+        elif name == "nsi_cross_edge_density":
+            exp = float(net.nsi_cross_mean_degree(list(L1), list(L2))
+                        / w[list(L2)].sum())
+        else:
+            return False
+        return bool(np.isclose(float(value), exp, rtol=1e-9, atol=1e-12,
+                               equal_nan=True))
+    except Exception:   # noqa
+        return False
+
+
+def _drop_derived(pending, failed, base, cur, stats):
+    """pending: [(violation, name, tag, (L1, L2), (S1, S2), bval, sval)]"""
+    out = []
+    for (v, name, tag, g0, g1, bval, sval) in pending:
+        inp = DERIVED.get(name)
+        if inp is not None and (inp, tag, repr(g0)) in failed and \
+                _derived_consistent(base, name, g0[0], g0[1], bval) and \
+                _derived_consistent(cur, name, g1[0], g1[1], sval):
+            stats["derived-of-failing-input:" + name] = \
+                stats.get("derived-of-failing-input:" + name, 0) + 1
+            continue
+        out.append(v)
+    return out
+
+
 # source / target groups for the Network methods that take node sets
 def _st_groups(n):
     if n < 2:
@@ -310,7 +362,12 @@ def fam_split(case):
     conn = is_connected(np.array(A))
     dname = "directed" if directed else "undirected"
     has_attr = any(any(r) for r in A)    # igraph keeps no attribute w/o links
-    base = _make(Network, A, directed, w, W)
+    try:
+        base = _make(Network, A, directed, w, W)
+    except ZeroDivisionError:
+        # link density N(N-1) of a single node (older trees)
+        return {"viol": [], "evals": 0, "trivial": True,
+                "excluded": {"single-node network cannot be constructed": 1}}
     methods = _nsi_methods(Network)
     # plan: (name, kind, kwargs, tag, tol, groups)
     plan = []
@@ -395,6 +452,7 @@ def fam_split(case):
             cur, curA, curw, curW = nxt, A2, w2, W2
         if not good:
             continue
+        pending, failed = [], set()
         for k, (name, kind, pat, tag, tol, grp) in enumerate(plan):
             b = base_val[k]
             if b[0] == "exc":
@@ -432,9 +490,12 @@ def fam_split(case):
                 r = "ill-conditioned: " + name
                 excluded[r] = excluded.get(r, 0) + 1
                 continue
-            viol.append(V(key + ":not-nsi:" + dtag,
-                          "splits (node, proportion) %s, weights %s: %s" % (
-                              seq, w, msg), s[1], b[1]))
+            failed.add((name, tag, repr(((), ()))))
+            pending.append((V(key + ":not-nsi:" + dtag,
+                              "splits (node, proportion) %s, weights %s: %s"
+                              % (seq, w, msg), s[1], b[1]),
+                            name, tag, ((), ()), ((), ()), b[1], s[1]))
+        viol += _drop_derived(pending, failed, base, cur, stats)
     _clear_caches()
     return {"viol": viol, "evals": ev, "excluded": excluded, "stats": stats,
             "trivial": False, "sig": sig}
@@ -527,6 +588,7 @@ def fam_cross(case):
                             np.asarray(cur.link_attribute(mt.LA))
                             if any(any(r) for r in A) else None)
             origin = list(range(n)) + [v]
+            pending, failed = [], set()
             for k, (name, kind, pat, L1, L2) in enumerate(plan):
                 b = base_val[k]
                 if b[0] == "exc":
@@ -562,8 +624,8 @@ def fam_cross(case):
                         excluded[r] = excluded.get(r, 0) + 1
                         continue
                     viol.append(V(key + ":raises-after-split:" + dtag,
-                                  "node %d p=%s groups %s %s" % (v, p, L1,
-                                                                   L2),
+                                  "node %d p=%s groups %s %s" % (
+                                      v, p, L1, L2),
                                   s[1], _sigval(b)))
                     continue
                 try:
@@ -579,10 +641,14 @@ def fam_cross(case):
                     r = "ill-conditioned: " + name
                     excluded[r] = excluded.get(r, 0) + 1
                     continue
-                viol.append(V(key + ":not-nsi:" + dtag,
-                              "%s: split node %d (p=%s), groups %s / %s, "
-                              "weights %s: %s" % (name, v, p, L1, L2, w, msg),
-                              s[1], b[1]))
+                g0 = (list(L1), list(L2 or ()))
+                failed.add((name, "", repr(g0)))
+                pending.append((V(
+                    key + ":not-nsi:" + dtag,
+                    "%s: split node %d (p=%s), groups %s / %s, weights %s: "
+                    "%s" % (name, v, p, L1, L2, w, msg), s[1], b[1]),
+                    name, "", g0, (S1, S2 or []), b[1], s[1]))
+            viol += _drop_derived(pending, failed, base, cur, stats)
     _clear_caches()
     return {"viol": viol, "evals": ev, "excluded": excluded, "stats": stats,
             "trivial": n < 2, "sig": sig}
@@ -599,32 +665,40 @@ def run(ctx):
     Network, IN = _classes()
     und_n, dir_n = (5, 4) if thorough else (4, 3)
     ctx.rule = (
-        "split: every labelled undirected graph on 1..%d nodes and directed "
-        "graph on 1..%d nodes%s x weight vectors 1,2 of domains.WEIGHTS x "
-        "every node x proportions %s; iter: iso(5) undirected and iso(%d) "
-        "directed x every depth-2 split sequence (v, then v again / the new "
-        "twin / any other node) x proportion pairs (0.3,0.5),(0.5,0.3); cross: iso(1..5) x every "
-        "ordered pair of disjoint non-empty groups%s x every node x "
-        "proportions.  Every case is non-trivial (a split always changes "
-        "N, the weights and the adjacency); distinct = distinct vectors of "
-        "base values of all measures." % (
-            und_n, dir_n,
-            "" if thorough else " plus iso(5) undirected / iso(4) directed",
-            PROPS, 4 if thorough else 3, "" if thorough else " (n=5: bipartitions only)"))
+        "split: every labelled undirected graph on 1..%d nodes and every "
+        "labelled directed graph on 1..%d nodes%s x weight vectors 1 and 2 of "
+        "domains.WEIGHTS x every node x proportions %s; iter: iso(5) "
+        "undirected and iso(%d) directed x every depth-2 split sequence (v, "
+        "then v again / the new twin / any other node) x proportion pairs "
+        "(0.3,0.5),(0.5,0.3); cross: iso(2..5) undirected x every ordered "
+        "pair of disjoint non-empty node groups%s x every node x "
+        "proportions.  Every case is non-trivial (a split always changes N, "
+        "the weights and the adjacency); distinct = distinct vectors of the "
+        "original network's values over all measures and argument patterns."
+        % (und_n, dir_n,
+           "" if thorough else " plus iso(5) undirected / iso(4) directed",
+           PROPS, 4 if thorough else 3,
+           "" if thorough else " (n=5: bipartitions only)"))
     cases = []
-    for n in range(2, und_n + 1):
+    for n in range(1, und_n + 1):
         cases += [(n, False, m, wi, 1) for (_, _, m) in all_graphs(n, False)
                   for wi in (1, 2)]
     if not thorough:
         cases += [(5, False, m, wi, 1) for (_, _, m) in iso(5, False)
                   for wi in (1, 2)]
-    for n in range(2, dir_n + 1):
+    for n in range(1, dir_n + 1):
         cases += [(n, True, m, wi, 1) for (_, _, m) in all_graphs(n, True)
                   for wi in (1, 2)]
     if not thorough:
         cases += [(4, True, m, wi, 1) for (_, _, m) in iso(4, True)
                   for wi in (1, 2)]
     cases.sort(key=lambda c: (c[0], bin(c[2]).count("1")))
+    # self-test: the same case evaluated twice gives identical observations
+    probe = [c for c in cases if c[0] == 3 and not c[1]][-1]
+    a, b = fam_split(probe), fam_split(probe)
+    assert a["sig"] == b["sig"] and a["evals"] == b["evals"] and \
+        [v["key"] for v in a["viol"]] == [v["key"] for v in b["viol"]], \
+        "non-deterministic observations"
     ctx.explore("split", cases, desc="net vs net.splitted_copy(v, p), every "
                 "nsi_* method of Network")
     cases = [(5, False, m, wi, 2) for (_, _, m) in iso(5, False)
